@@ -596,6 +596,18 @@ func (u *Unit) evalSpecCall(env *SpecEnv, e *SExpr) Value {
 	case "freshPool":
 		p := arg(0)
 		return boolV(And(Ge(p.Term, u.comp(env.old, "pbrk", SInt)), Lt(p.Term, u.comp(env.cur, "pbrk", SInt))))
+	case "rnd":
+		// standard-model rounding to binary64
+		a := toReal(arg(0).Term)
+		u.noteRnd(a)
+		return Value{K: KNum, T: types.Typ[types.Float64], Term: u.rnd(a), Spec: IntLit(0)}
+	case "round":
+		// round half away from zero, as an integer
+		a := toReal(arg(0).Term)
+		half := RealLit("0.5")
+		return intV(Ite(Ge(a, RealLit("0.0")), mk("to_int", SInt, mk("+", SReal, a, half)), Neg(mk("to_int", SInt, mk("+", SReal, mk("-", SReal, a), half)))))
+	case "real":
+		return Value{K: KNum, T: types.Typ[types.Float64], Term: toReal(arg(0).Term), Spec: IntLit(0)}
 	case "heapSameBelow":
 		// heapSameBelow(x): every cell allocated in the old state is unchanged
 		t := u.elemOf(env, e.Args[0])
